@@ -283,6 +283,12 @@ func (s *Store) evalCmp(c clientv3.Cmp) bool {
 			x = it.version
 		}
 		r = cmpInt(x, c.TargetUnion.(*pb.Compare_Version).Version)
+	case pb.Compare_LEASE:
+		var x int64
+		if ok {
+			x = int64(it.lease)
+		}
+		r = cmpInt(x, c.TargetUnion.(*pb.Compare_Lease).Lease)
 	default:
 		panic("vetcd: unsupported compare target")
 	}
